@@ -297,6 +297,13 @@ def cli_levels(ctx, b, exprs, scratch, tag):
             if exc is not None or se.strip():
                 ctx.violate('cli-script-fails/%s' % how, 'pybufrkit script %s failed: %r %s' % (flags, exc, se[:100]), dict(script=sc, expr=e))
                 continue
+            elif how in ('arg2', 'default') and '${%' not in sc:
+                # the same script over two files in one invocation: each file gets its own run
+                so2, se2, exc2, code2 = run_cli(['script'] + flags + [sc, path, path])
+                ctx.count('cli_script_two_file_runs')
+                if exc2 is not None or so2.strip().splitlines() != [exp, exp]:
+                    ctx.violate('cli-script-several-files/%s' % how, 'pybufrkit script over two copies of a file printed %r, expected the '
+                                'single-file output twice (%r)' % (so2.strip()[:120], exc2), dict(script=sc, expr=e, how=how))
             if so.strip() != exp:
                 ctx.violate('cli-script-level/%s' % how, 'pybufrkit script %s %r printed %s, ScriptRunner at that level binds %s'
                             % (' '.join(flags), sc, so.strip()[:80], exp[:80]), dict(script=sc, expr=e, how=how))
